@@ -7,6 +7,7 @@ package c20
 import (
 	"bytes"
 	"fmt"
+	"os"
 	"path/filepath"
 	"time"
 
@@ -47,6 +48,7 @@ type fdEvent struct {
 	Ops     []fdOp   `json:"ops"`
 	Hashes  []fdHash `json:"hashes"`
 	Problem string   `json:"problem"`
+	Via     string   `json:"via"`
 }
 
 func fdContent(x string) []byte {
@@ -78,6 +80,16 @@ func fdRun(id int, b fdBehaviour, backend, scratch string) fdEvent {
 	}
 	defer func() { _ = fs.Rm(dir) }()
 	p := filepath.Join(dir, "subject.bin")
+	// every other history on the OS backend designates the file through a symbolic link: the bytes are those of the file
+	hashPath := p
+	if backend == "os" && id%2 == 0 {
+		hashPath = filepath.Join(dir, "link-to-subject")
+		if err := os.Symlink(p, hashPath); err != nil {
+			ev.Problem = "symlink: " + err.Error()
+			return ev
+		}
+		ev.Via = "link"
+	}
 	for i, o := range b.Ops {
 		switch o.Op {
 		case "write":
@@ -99,7 +111,7 @@ func fdRun(id int, b fdBehaviour, backend, scratch string) fdEvent {
 			}
 		case "hash":
 			h := fdHash{Step: i + 1, Content: o.Digest}
-			d, err := fs.FileHash(ev.Algo, p)
+			d, err := fs.FileHash(ev.Algo, hashPath)
 			if err != nil {
 				h.Err = hk.Kind(err)
 			} else {
